@@ -319,18 +319,17 @@ SPECS["C09"] = dict(
 
 # --------------------------------------------------------------------------------------- C02
 _c02 = [
-    H("c02_pmh3_vs_3a_m2", 5400, "thorough", "ProbMinHash3 (item-wise) == ProbMinHash3a (IndexMap, two-pass) on a two-item weighted set from fresh sketchers: same signature and registers", "m=2, weights 1 and 2, concrete labels, all generator outputs symbolic, races cut at 5 points", extra=["--no-unwinding-checks"]),
     H("c02_pmh3_step_m2_n3_w1", 1800, "quick", "ProbMinHash3::hash_item step lemma, weight 1", "m=2, 3 points, weight 1.0"),
     H("c02_pmh3_step_m3_n4_w1", 2400, "thorough", "same", "m=3, 4 points, weight 1.0"),
     H("c02_pmh2_step_m2_w1", 1800, "quick", "ProbMinHash2::hash_item step lemma, weight 1", "m=2, weight 1.0"),
     H("c02_pmh2_step_m3_w1", 2400, "thorough", "same", "m=3, weight 1.0"),
-    H("c02_pmh3_step_m2_n3", 1800, "quick", "ProbMinHash3::hash_item from an arbitrary state (tracker Inv): registers == min(old, best point per position of the item's unpruned race), signature follows the strict minimum, tracker Inv kept", "m=2, first 3 points of the item, weight = any 2^e (|e|<=40), states with max register <= 3/w"),
-    H("c02_pmh3_step_m3_n4", 2400, "quick", "same", "m=3, 4 points"),
+    H("c02_pmh3_step_m2_n3", 3600, "thorough", "ProbMinHash3::hash_item from an arbitrary state (tracker Inv): registers == min(old, best point per position of the item's unpruned race), signature follows the strict minimum, tracker Inv kept", "m=2, first 3 points of the item, weight = any 2^e (|e|<=40), states with max register <= 3/w"),
+    H("c02_pmh3_step_m3_n4", 5400, "thorough", "same", "m=3, 4 points"),
     H("c02_pmh3_step_m4_n5", 3600, "thorough", "same", "m=4, 5 points"),
     H("c02_pmh3_step_m2_n3_w3", 1800, "thorough", "same, weight 3.0", "m=2"),
     H("c02_pmh3_step_m3_n4_w07", 2400, "thorough", "same, weight 0.7", "m=3"),
-    H("c02_pmh2_step_m2", 1800, "quick", "ProbMinHash2::hash_item from an arbitrary state (tracker Inv, dirty permutation generator): registers == min(old, the item's point at that position), signature follows, Inv kept", "m=2, weight any 2^e"),
-    H("c02_pmh2_step_m3", 2400, "quick", "same", "m=3"),
+    H("c02_pmh2_step_m2", 3600, "thorough", "ProbMinHash2::hash_item from an arbitrary state (tracker Inv, dirty permutation generator): registers == min(old, the item's point at that position), signature follows, Inv kept", "m=2, weight any 2^e"),
+    H("c02_pmh2_step_m3", 5400, "thorough", "same", "m=3"),
     H("c02_pmh2_step_m4", 3600, "thorough", "same", "m=4"),
     H("c02_pmh2_step_m3_w07", 2400, "thorough", "same, weight 0.7", "m=3"),
 ]
